@@ -598,8 +598,23 @@ def split_assumptions(out):
     return blocks
 
 def load_known(prop):
+    """known findings: fragments known_findings.d/*.json (lists) merged with
+    known_findings.json (generated from them by tools/mkmanifest.py)"""
+    out = []
+    seen = set()
+    d = os.path.join(ROOT, 'known_findings.d')
+    files = [os.path.join(d, f) for f in sorted(os.listdir(d))] if os.path.isdir(d) else []
+    for p in files:
+        if p.endswith('.json'):
+            try:
+                for k in json.load(open(p)):
+                    if k.get('property') == prop and k.get('class') not in seen:
+                        out.append(k); seen.add(k.get('class'))
+            except Exception as e:
+                sys.stderr.write('bad known-findings fragment %s: %r\n' % (p, e))
     p = os.path.join(ROOT, 'known_findings.json')
-    if not os.path.exists(p):
-        return []
-    data = json.load(open(p))
-    return [k for k in data.get('findings', []) if k.get('property') == prop]
+    if os.path.exists(p):
+        for k in json.load(open(p)).get('findings', []):
+            if k.get('property') == prop and k.get('class') not in seen:
+                out.append(k); seen.add(k.get('class'))
+    return out
